@@ -156,7 +156,9 @@ pub fn handle_unwatch(conn: &mut Connection, storage: &Arc<StorageEngine>) -> Re
 
 /// Check if we should queue a command (we're in a transaction)
 pub fn should_queue_command(command: &str) -> bool {
-    !matches!(command, "MULTI" | "EXEC" | "DISCARD" | "WATCH" | "UNWATCH")
+    // UNWATCH is queued like any other command (as in Redis): run at once it would drop the watches that
+    // guard the transaction being built; EXEC checks them first and then runs it as a no-op
+    !matches!(command, "MULTI" | "EXEC" | "DISCARD" | "WATCH")
 }
 
 /// Queue a command for later execution
